@@ -314,11 +314,15 @@ def scalar_scale(u):
     f.trusted_here = True
 
 
-def product(u):
+def product(u, mul_tolerance=False):
     f = u.fn(PFILE, "multiply")
     f.req("lhs.wf()", "rhs.wf()", "lhs.coefficients@.len() + rhs.coefficients@.len() < usize::MAX / 2")
     # (which operand's tolerance the result carries differs between the code paths and is not part of the property)
     f.ens("res.wf()", "is_product_exact(res, *lhs, *rhs)")
+    # helper clause for callers that multiply operands of EQUAL tolerance (C18 constructors): the result carries the tolerance of one of the operands
+    TOLC = lambda r, a, b: f"{r}.tolerance == ({a}).tolerance || {r}.tolerance == ({b}).tolerance"
+    if mul_tolerance:
+        f.ens(TOLC("res", "*lhs", "*rhs"))
     # the FFT tail: `.iter().zip(..).map(|(l_p, r_p)| *l_p * r_p).collect()` on the unverified complex type is
     # routed to a trusted stub; nothing is claimed about that path
     f.opt(subst=[("left_points . iter ( ) . zip ( right_points . iter ( ) ) . map ( | ( l_p , r_p ) | * l_p * r_p ) . collect ( )",
@@ -330,6 +334,8 @@ def product(u):
         g = u.impl(PFILE, f"ops::Mul<{rhs_t}> for {self_t}").fn("mul")
         a, b = deref("self", self_t), deref("rhs", rhs_t)
         g.ens("res.wf()", f"is_product_exact(res, {a}, {b})")
+        if mul_tolerance:
+            g.ens(TOLC("res", a, b))
     for rhs_t in ("Polynomial<N>", "&Polynomial<N>"):
         u.spec(spec_impl("Mul", vty(rhs_t), "Polynomial", req, assign=True))
         g = u.impl(PFILE, f"ops::MulAssign<{rhs_t}> for Polynomial<N>").fn("mul_assign")
@@ -339,7 +345,7 @@ def product(u):
 
 
 
-def all_ops(u):
+def all_ops(u, mul_tolerance=False):
     """struct, shared specs and every operator impl + multiply, each verified against its contract"""
     u.item(PFILE, "struct", "Polynomial")
     u.spec(POLY_SPEC)
@@ -354,7 +360,7 @@ def all_ops(u):
         mutating_pp(u, trait, "Polynomial<N>", True)
         mutating_pp(u, trait, "&Polynomial<N>", True)
     scalar_scale(u)
-    product(u)
+    product(u, mul_tolerance)
 
 
 # ---------------------------------------------------------------------------
